@@ -19,10 +19,10 @@ GEN_FILES = []
 DRIVERS = ["tracker"]
 THEOREMS = ["C16_valid_script", "C16_bounded", "C16_moves_ok_fit", "C16_update_total", "C16_to_lines_total",
             "C16_line_char_roundtrip", "C16_roundtrip_refuted", "C16_merge_preserves_coverage",
-            "C16_merge_keeps_markers", "C16_equal_keeps", "C16_new_is_authors", "C16_equal_keeps_markers",
-            "C16_merge_keeps_lines", "C16_identity_keeps_lines", "C16_identity_inverted_refuted",
-            "C16_identity_fixpoint", "C16_regression_moved_block", "C16_regression_inverted_prior",
-            "C16_regression_tie", "C16_regression_marker", "C16_nonvacuous"]
+            "C16_merge_keeps_markers", "C16_equal_keeps", "C16_new_is_authors",
+            "C16_merge_keeps_lines", "C16_identity_keeps_lines", "C16_identity_marker_refuted",
+            "C16_identity_inverted_refuted", "C16_identity_fixpoint", "C16_regression_moved_block",
+            "C16_regression_inverted_prior", "C16_regression_tie", "C16_nonvacuous"]
 CLAIM = {
     "text": "Machine-checked proof (Coq 8.16.1) over an executable Gallina model of the tracker's bookkeeping "
             "(transform_attributions, merge_attributions, the line/char conversions) with the diff and the move "
@@ -30,16 +30,16 @@ CLAIM = {
             "cannot panic for ANY priors; attributions_to_line_attributions cannot slice off a char boundary "
             "for ANY attributions on valid UTF-8; merge preserves the per-byte (author, ts) cover and the zero-length "
             "markers; bytes of Equal segments keep exactly their cover in the output of update; bytes of Insert "
-            "segments outside move targets belong to the reporting author; zero-length deletion markers move along "
-            "with unchanged text; merge changes no line's (author, overrode) and an identical text keeps all line "
-            "attributions for any priors with start <= end; line -> "
+            "segments outside move targets belong to the reporting author; merge changes no line's (author, overrode) and an identical text keeps all line "
+            "attributions for any priors with start < end (zero-length priors: known class C16-K3, refuted with a "
+            "witness); line -> "
             "char -> line keeps the AI lines under the exact side condition wf_lattrs. The model describes the tracker "
-            "with the repairs of the former classes C16-K1..K4, whose witnesses are proved regression lemmas.",
+            "with the repairs of the former classes C16-K1, K2, K4, whose witnesses are proved regression lemmas.",
     "design_ref": "DESIGN.md §4 C16",
     "note": "compute_diffs (imara line diff, tokenizer, token diff) and detect_moves are an oracle: the theorems "
             "hold for all facts meeting wf_diff / moves_fit, and those contracts are monitored on the real facts of "
-            "every generated pair. C16_boundaries and C16_ws_reformat are tested (oracle) but not proved; C16-K5 "
-            "(line-level diff anchoring) stays a known finding. "
+            "every generated pair. C16_boundaries and C16_ws_reformat are tested (oracle) but not proved; C16-K3 (markers dropped) and C16-K5 "
+            "(line-level diff anchoring) stay known findings. "
             "The harness is a debug build (overflow checks on); a release build is not exercised.",
     "technique": "Coq proof over extracted model + differential correspondence on real diff facts + contract monitors",
 }
@@ -63,8 +63,10 @@ ASSUMPTIONS = [
 HUMAN = "human"
 BIG = 1 << 61
 
-# C16-K1 .. C16-K4 are repaired in the tracker (fix commits); their witnesses are regression cases of the
-# corpus below and nothing is excused for them any more.  K5 (the line-level diff) stays open.
+# C16-K1, K2, K4 are repaired in the tracker (fix commits); their witnesses are regression cases of the
+# corpus below and nothing is excused for them any more.  K3 is open again (its repair was reverted: a carried
+# marker at a line start slid into the line when the line was re-indented) and K5 (the line-level diff) is open.
+K3 = "C16-K3 zero-length prior attribution (deletion marker) inside a line is dropped by the next update"
 K5 = "C16-K5 whitespace-only reformat that the line-level diff mis-anchors on a repeated (e.g. blank) line: the diff reports a substantive change"
 
 
@@ -288,6 +290,52 @@ def gen_reformat(r):
             + ("/uni-" + uni if uni else ""), so, sn)
 
 
+WS_LINES = ["fn main() {", "let x = 1;", "return x + y;", "}", "héllo wörld", "日本語 テキスト", "a == b && c != d",
+            "foo.bar(baz)", "let total = items.iter().sum();", "else {", "// comment", "y", "🎉 party", "ß = ü",
+            "if (a) { b(); }", "w0 w1", "alpha", "beta gamma", "k;", "0x1F + 1.5e-3"]
+
+
+def gen_ws_marker(r):
+    """a whitespace-only change of some lines (re-indent / trailing blanks; the line structure stays), priors =
+    one range per line plus zero-length attributions of ANOTHER author at line starts / line ends (and, for the
+    known class K3, strictly inside lines).  returns (old, new, attrs, kind)"""
+    n = r.range(2, 7)
+    body = r.shuffle(WS_LINES)[:n] if r.chance(4, 5) else [r.pick(WS_LINES[:6]) for _ in range(n)]
+    ind = [r.pick(["", "", "  ", "\t", "    "]) for _ in range(n)]
+    trail = [r.pick(["", "", " ", "\t"]) for _ in range(n)]
+    old_lines = [ind[i] + body[i] + trail[i] for i in range(n)]
+    ind2, trail2 = list(ind), list(trail)
+    for _ in range(r.range(1, 3)):
+        i = r.below(n)
+        if r.chance(3, 4):
+            ind2[i] = r.pick([x for x in ["", "  ", "\t", "    ", "      ", " \t"] if x != ind2[i]])
+        else:
+            trail2[i] = r.pick([x for x in ["", " ", "  ", "\t"] if x != trail2[i]])
+    new_lines = [ind2[i] + body[i] + trail2[i] for i in range(n)]
+    final = r.pick(["\n", "\n", ""])
+    old = "\n".join(old_lines) + final
+    new = "\n".join(new_lines) + final
+    ob = list(old.encode())
+    attrs = []
+    spans = line_spans(ob)
+    for (s, e) in spans:
+        attrs.append((s, e, r.weighted([(4, "ai_1"), (3, "ai_2"), (3, HUMAN)]), r.range(5, 40)))
+    where = r.weighted([(5, "bounds"), (2, "bounds+inside"), (1, "none")])
+    if where != "none":
+        for (s, e) in spans:
+            for p in (s, e):
+                if r.chance(1, 2):
+                    attrs.append((p, p, r.pick(["ai_3", HUMAN, "ai_2"]), r.pick([1, 60, 60, r.range(1, 60)])))
+        if where == "bounds+inside":
+            (s, e) = r.pick(spans)
+            p = r.range(s + 1, max(s + 1, e - 1))
+            if s < p < e and is_cb(ob, p):
+                attrs.append((p, p, r.pick(["ai_3", HUMAN]), 60))
+    if r.chance(1, 3):
+        attrs = r.shuffle(attrs)
+    return old, new, attrs, "wsmarker:" + where + ("/distinct" if len(set(body)) == n else "/dups")
+
+
 def cb_positions(bs):
     return [i for i in range(len(bs) + 1) if is_cb(bs, i)]
 
@@ -410,6 +458,12 @@ def lines_per_line(lattrs):
     return d
 
 
+def k3_class(attrs, text_b):
+    """a zero-length prior strictly inside a line of the old text (there it is a candidate of the line)"""
+    spans = line_spans(text_b)
+    return any(a == b and any(ls < a < le for (ls, le) in spans) for (a, b, _, _) in attrs)
+
+
 def moves_misaligned(old_b, new_b, segs, moves):
     """some move mapping whose source and target bytes disagree before the shorter one ends
     (offsets inside the source carry over to the target only where the texts agree)"""
@@ -473,7 +527,8 @@ def oracle_update(case, f, findings):
     # identical text keeps the line attributions
     # (priors with start > end are not attribution ranges; for them only totality and bounds are checked)
     if old_b == new_b and not has_inv and ln[0] != l0[0]:
-        findings.append((f"identical text changes line attributions: {C.sx(l0[0])[:120]} -> {C.sx(ln[0])[:120]}", None))
+        findings.append((f"identical text changes line attributions: {C.sx(l0[0])[:120]} -> {C.sx(ln[0])[:120]}",
+                         K3 if k3_class(attrs, old_b) else None))
     # Equal segments keep their cover; Insert segments belong to the author
     op = np_ = 0
     ins_idx = 0
@@ -602,14 +657,14 @@ def run(ctx):
     corpus = [
         ("", "", [], "ai_9", 100),
         ("a\n", "a\n", [(0, 2, "zed", 5), (0, 2, "amy", 5)], "ai_9", 100),                     # regression: K2
-        ("abc\n", "abc\n", [(0, 4, HUMAN, 1), (2, 2, "ai_1", 9)], "ai_9", 100),                # regression: K3
+        ("abc\n", "abc\n", [(0, 4, HUMAN, 1), (2, 2, "ai_1", 9)], "ai_9", 100),                # witness: K3 (known class)
         ("    aaa\n    bbb\n    ccc\nX\nY\nZ\n", "X\nY\nZ\naaa\nbbb\nccc\n", [(0, 24, "ai_1", 5)], "ai_9", 100),   # regression: K1
         ("ab cd", "ab  cd", [(0, 5, "ai_1", 5), (3, 2, "ai_1", 5)], "ai_9", 100),                 # regression: K4
         ("    aaa\n    bbb\n    ccc\nX\nY\nZ\nW\n", "X\nY\nZ\naaa\nbbb\nccc\nW\n",
          [(0, 8, "ai_1", 5), (8, 16, "ai_2", 6), (16, 24, "ai_1", 7)], "ai_9", 100),               # regression: K1, per-line authors
         ("\U0001F389\nlet value = compute(alpha, beta);\n\u00df = \u00fc\n", "\U0001F389\nlet value = compute(alpha, beta);\n\u00df = \u00fc\n",
          [(4, 39, "ai_1", 39), (10, 14, "ai_2", 26), (10, 14, "ai_1", 36), (22, 36, HUMAN, 47)], "ai_9", 100),  # regression: K2, overrode
-        ("abc\nxyz\n", "Q\nabc\nxyz\n", [(0, 8, HUMAN, 1), (6, 6, "ai_2", 9)], "ai_9", 100),   # regression: K3, marker moves along
+        ("abc\nxyz\n", "Q\nabc\nxyz\n", [(0, 8, HUMAN, 1), (6, 6, "ai_2", 9)], "ai_9", 100),   # a marker inside unchanged text below an insertion
         ("ab\n", "ab\n", [(0, 2, "ai_1", 5), (0, 2, "ai_2", 5), (0, 2, "ai_1", 5), (0, 3, HUMAN, 9)], "ai_9", 100),  # duplicates apart
     ]
     for i, (o, n, at, au, ts) in enumerate(corpus):
@@ -626,6 +681,13 @@ def run(ctx):
         cases.append({"id": f"p{i}", "old": o, "new": n, "attrs": at, "author": au, "ts": ts, "kind": kind, "akind": ak})
         bump(dist["pair_kinds"], kind.split("+")[0].split(":")[0])
         bump(dist["attr_kinds"], ak)
+    # whitespace-only edits of lines whose boundaries carry zero-length attributions of another author
+    n_wm = 700 if quick else 20000
+    for i in range(n_wm):
+        o, n, at, kind = gen_ws_marker(r)
+        cases.append({"id": f"wm{i}", "old": o, "new": n, "attrs": at, "author": r.weighted([(3, "ai_9"), (1, HUMAN), (1, "ai_1")]),
+                      "ts": 100, "kind": kind, "akind": "tiling+markers"})
+        bump(dist["pair_kinds"], kind.split("/")[0])
     # reformat cases
     n_rf = 700 if quick else 20000
     for i in range(n_rf):
@@ -676,7 +738,7 @@ def run(ctx):
     rule_hist = {}
     cnt_del = [0]
     known_hist = {}
-    cnt = {"k1": 0, "fit_bad": 0, "moves": 0, "known": 0, "uni_lines": 0}
+    cnt = {"k1": 0, "fit_bad": 0, "moves": 0, "known": 0, "uni_lines": 0, "ws_marker_lines": 0}
     hit = {"wf_diff": 0, "moves_ok": 0, "moves_fit": 0, "moves_same_len": 0, "priors_ordered": 0}
     all_impl = {}
 
@@ -743,6 +805,20 @@ def run(ctx):
                     np3 += len(d3)
                 prev = sg
             cnt_del[0] = 0
+            # a whitespace-only change of a line never changes that line's author, also with zero-length
+            # attributions of another author at the line's boundaries
+            if c["kind"].startswith("wsmarker") and f.get("lines") and f["lines"][0] != "panic" \
+                    and f.get("lines0") and f["lines0"][0] != "panic":
+                before = lines_per_line(dec_lattrs(f["lines0"][0]))
+                after = lines_per_line(dec_lattrs(f["lines"][0]))
+                nl = len(line_spans(c["old_b"]))
+                for ln_no in range(1, nl + 1):
+                    if before.get(ln_no, HUMAN) != after.get(ln_no, HUMAN):
+                        cls = K3 if k3_class(c["attrs"], c["old_b"]) else (K5 if f.get("subst") else None)
+                        findings.append((f"whitespace-only change of lines: line {ln_no} was {before.get(ln_no, HUMAN)!r} "
+                                         f"and is now {after.get(ln_no, HUMAN)!r}", cls))
+                        break
+                cnt["ws_marker_lines"] += nl
             # reformat oracle
             if c["kind"].startswith("reformat") and f.get("lines") and f["lines"][0] != "panic":
                 got = lines_per_line(dec_lattrs(f["lines"][0]))
@@ -1021,6 +1097,7 @@ def run(ctx):
             "synthetic_panics_in_impl": n_tpanic,
             "oracle_failures_in_known_classes": n_known,
             "oracle_failures_by_class": known_hist,
+            "lines_checked_under_whitespace_only_edits_with_boundary_markers": cnt["ws_marker_lines"],
             "reformat_lines_with_unicode_blanks_checked_against_another_reporting_author": cnt["uni_lines"],
             "transform_rules_exercised": rule_hist,
             "correspondence_mismatches": len(mism),
